@@ -193,6 +193,64 @@ def h_byte(entry: int, off: int, b: int) -> int:
     return 1
 
 
+# ------------------------------------------------------------------ Roland: one symbolic byte in one sample's directory / parameter record
+_RMODEL = None
+_RBASE = []
+
+
+def _roland_model():
+    global _RMODEL
+    if _RMODEL is None:
+        from vf import rolandw
+        from vf.props import c02
+        model = {"volumes": [("VolA", [0])], "performances": [("Perf0", [0])], "patches": [("Patch0", [0])],
+                 "partials": [("Part0", [0, 1, 2])],
+                 "samples": [dict(name="Smp0", words=c02._words(500, 1)), dict(name="Smp1", words=c02._words(5000, 2), chain=[1, 0]),
+                             dict(name="Smp2", words=c02._words(300, 3), mode=5)]}
+        _RMODEL = rolandw.build(model)
+    return _RMODEL
+
+
+def _roland_listing(img):
+    from vf.props import c16
+    import smpl_extract.actions as actions
+    image = actions.determine_image_type(io.BufferedReader(io.BytesIO(bytes(img))))
+    ls = c16._do(image, ("ls", "VolA/Perf0"))[1]
+    names = [ln.split("  ")[0].strip() for ln in ls.split("\n")[2:] if ln.strip()]
+    exp = dict(c16._do(image, ("export", None))[1])
+    return names, exp
+
+
+def h_roland_byte(area: int, off: int, b: int) -> int:
+    """
+    pre: 0 <= area <= 1 and 0 <= off <= 47 and 0 <= b <= 255
+    post: _ == 1
+    """
+    CNT[0] += 1
+    area, off, b = conc(area, 0, 1), conc(off, 0, 47), conc(b, 0, 255)
+    with untraced():
+        from vf import rolandw
+        if area == 0 and off >= 32:
+            return 1
+        img = bytearray(_roland_model())
+        if not _RBASE:
+            _RBASE.append(_roland_listing(img))
+        names0, exp0 = _RBASE[0]
+        base = (rolandw.DIR["sample"][0] + 0x20 * 1) if area == 0 else (rolandw.PAR["sample"][0] + 0x30 * 1)      # sample 1's records
+        img[base + off] = b
+        try:
+            names1, exp1 = _roland_listing(img)
+        except Exception:
+            return 0                                     # the whole directory became unreadable
+        for keep in ("Smp0", "Smp2"):
+            if keep not in names1:
+                return 0                                 # every other item still listed under its original name
+            path = "out/VolA/Perf0/%s.wav" % keep
+            if exp1.get(path) != exp0[path]:
+                return 0                                 # ... and its audio exported unchanged
+    return 1
+
+
 # ------------------------------------------------------------------ Volume._realize_files
 VEXC = [ConstructError, StreamError, MappingError, InvalidFileEntry, ValidationError, RangeError]
 
@@ -332,6 +390,12 @@ def obligations(tier, seed):
                     continue
                 obs.append(ob(f"C14.byte/entry={entry}/{fname}@{off}", "h_byte", [f"entry == {entry}", f"off == {off}"],
                               "one byte of the entry", "all 256 values of that byte (realised at construct's C boundary)", stubs=["stub SAT"]))
+    dir_offs = list(range(32)) if not q else [0, 15, 16, 17, 18, 28, 29, 30, 31]
+    par_offs = list(range(48)) if not q else [0, 16, 19, 24, 27, 36, 40, 41, 42, 44, 45]
+    for area, offs in ((0, dir_offs), (1, par_offs)):
+        for off in offs:
+            obs.append(ob(f"C14.roland-byte/{('directory', 'parameter')[area]}@{off}", "h_roland_byte", [f"area == {area}", f"off == {off}"],
+                          "one byte of sample 1's record", "all 256 values of that byte; whole S-770 image through ls + export", stubs=["independent S-770 writer"]))
     obs.append(ob("C14.volume", "h_volume", [], "number of entries, which one/two fail, exception type", "<= 5 entries, 6 exception types"))
     obs.append(ob("C14.roland/safelist", "h_safelist", [], "count, failing positions, exception type", "<= 5 records, 6 exception types", stubs=["failing sub-parser"]))
     obs.append(ob("C14.roland/partial-refs", "h_partial", [], "failing references, exception type", "4 references, 4 exception types",
